@@ -352,6 +352,84 @@ def check(ctx, form, sig, sample=False, fmt="dict", spacers=0):
                     "observed": f"{len(exp)} (element, kind) entries matched"})
 
 
+def search_twin_forms(ctx):
+    """search() changes where a list's items are written (inline in the control instead of a secondary instance), not what each language is shown:
+    the same list content under a second name, read by a plain select, must show the same label and media per choice and language."""
+    from ..model import Form, Row
+    k = 0
+    for langs in ([], ["en", "fr"], ["English (en)", "French (fr)"]):
+        for media in (None, "image", "audio"):
+            for shape in ("all-translated", "mixed-plain", "plain-only", "one-unlabeled"):
+                for style in ("search('f')", "minimal search('f', 'matches', 'name', 'x')"):
+                    k += 1
+                    if not ctx.mine(k):
+                        continue
+                    if not langs and shape in ("all-translated", "mixed-plain"):
+                        continue
+                    rows = []
+                    for j in range(3):
+                        c = {"name": f"c{j}"}
+                        plain = shape == "plain-only" or (shape == "mixed-plain" and j == 1)
+                        if shape == "one-unlabeled" and j == 2:
+                            pass
+                        elif plain or not langs:
+                            c["label"] = f"plain {j}"
+                        else:
+                            for lg in langs:
+                                c[f"label::{lg}"] = f"{lg[:2]} {j}"
+                        if media and j != 1:
+                            c[media if not langs or j == 0 else f"{media}::{langs[0]}"] = f"m{j}.{'png' if media == 'image' else 'mp3'}"
+                        rows.append(c)
+                    f = Form()
+                    f.survey = [Row("q", "select_one l1", "sa", {"label": "S", "appearance": style}), Row("q", "select_one l2", "pl", {"label": "P"})]
+                    f.choices = {"l1": [dict(c) for c in rows], "l2": [dict(c) for c in rows]}
+                    o = drive.convert_form(f)
+                    ctx.ctr("search_twin_forms")
+                    ctx.case(sig=f"search-twin|{len(langs)}|{media}|{shape}|{style[:7]}")
+                    if not o.ok:
+                        ctx.ctr("search_twin_rejected")
+                        continue
+                    pp = xf.Parsed(o.xform)
+                    trs, _ = pp.itext()
+                    tl = [t[0] for t in trs] or [None]
+
+                    def show(tid, lg):
+                        for l_, _d, texts, _x in trs:
+                            if l_ == lg:
+                                return tuple(sorted((form or "long", xf.segs_text(sg)) for form, sg in texts.get(tid, [])))
+                        return ()
+                    ctl = next((el for el in pp.body.iter() if isinstance(el.tag, str) and el.get("ref") == "/data/sa"), None)
+                    inst = next((i_ for i_ in pp.secondary if i_.get("id") == "l2"), None)
+                    if ctl is None or inst is None:
+                        ctx.viol("search-twin:structure", f"control /data/sa or instance l2 missing", common.witness(f, klass="search-twin"))
+                        continue
+                    for lg in tl:
+                        a = []
+                        for it in ctl.findall(xf.q(xf.XF, "item")):
+                            lab = it.find(xf.q(xf.XF, "label"))
+                            val = it.find(xf.q(xf.XF, "value"))
+                            if lab is not None and lab.get("ref"):
+                                a.append((val.text, show(xf.itext_id(lab.get("ref")), lg)))
+                            else:
+                                a.append((val.text, (("long", (lab.text or "") if lab is not None else ""),)))
+                        b = []
+                        root = inst.find(xf.q(xf.XF, "root"))
+                        for it in root.findall(xf.q(xf.XF, "item")):
+                            tid = it.find(xf.q(xf.XF, "itextId"))
+                            lab = it.find(xf.q(xf.XF, "label"))
+                            nm = it.find(xf.q(xf.XF, "name"))
+                            if tid is not None:
+                                b.append((nm.text, show(tid.text, lg)))
+                            else:
+                                b.append((nm.text, (("long", (lab.text or "") if lab is not None else ""),)))
+                        ctx.ctr("search_twin_choice_lists_compared")
+                        if a != b:
+                            d = next(((x, y) for x, y in zip(a, b) if x != y), (a, b))
+                            ctx.viol("search-twin:choice-shown-differently", f"language {lg!r}: the search() select shows {d[0]!r} where the plain select of the same list content shows {d[1]!r}",
+                                     common.witness(f, klass="search-twin"))
+                            break
+
+
 def loop_text_forms(ctx):
     """Looped questions (begin loop over <list>): every copy shows its own choice's label, per language, hostile characters intact."""
     from .. import looptext
@@ -370,6 +448,7 @@ def loop_text_forms(ctx):
 
 def run_shard(ctx):
     loop_text_forms(ctx)
+    search_twin_forms(ctx)
     pl = plan(ctx.tier, ctx.seed)
     for i in range(pl["n"]):
         if not ctx.mine(i):
@@ -390,6 +469,9 @@ def replay(w):
     def chk(ctx, wit):
         if wit.get("klass") == "loop-text":
             loop_text_forms(ctx)  # the family is small and deterministic: run it whole
+            return
+        if wit.get("klass") == "search-twin":
+            search_twin_forms(ctx)
             return
         check(ctx, common.form_from_witness(wit), "replay")
     return common.replay_with(PROP, w, chk)
